@@ -539,4 +539,26 @@ theorem ctx_precedes_root (i : Input) (root : PNode) (h : build i = .ok root) (a
   · simp
   · by_cases hlt : a < b <;> simp [hlt] <;> omega
 
+/-! ## operands are evaluated from the operator's focus -/
+
+/-- MODEL-LEVEL FACT.  In the model the value of `E1 op E2` at a focus depends on the two operand
+values *at that same focus* only: replacing the first operand by any expression with the same value
+at the focus — whatever it does elsewhere, e.g. an absolute path — cannot change what the second
+operand contributes (no focus leaks from one operand into the other). -/
+theorem operands_same_focus {α : Type} (op : List Nat → List Nat → α) (e1 e1' e2 : Nat → List Nat) (focus : Nat)
+    (h : e1 focus = e1' focus) : opAtFocus op e1 e2 focus = opAtFocus op e1' e2 focus := by
+  unfold opAtFocus; rw [h]
+
+/-- … and with path operands the operators still agree with the spec: e.g. `E1 except E2` at a focus
+of a built tree is the spec's difference of the two operand values taken at that focus. -/
+theorem except_at_focus_eq_spec (i : Input) (root : PNode) (h : build i = .ok root) (e1 e2 : Nat → List Nat)
+    (focus : Nat) (hx : ∀ a ∈ e1 focus, a < (iter root).length) :
+    opAtFocus (opExcept (iter root)) e1 e2 focus = specExcept (iter root).length (e1 focus) (e2 focus) :=
+  except_eq_spec i root h (e1 focus) (e2 focus) _ hx (List.Perm.refl _)
+
+theorem intersect_at_focus_eq_spec (i : Input) (root : PNode) (h : build i = .ok root) (e1 e2 : Nat → List Nat)
+    (focus : Nat) (hx : ∀ a ∈ e1 focus, a < (iter root).length) :
+    opAtFocus (opIntersect (iter root)) e1 e2 focus = specIntersect (iter root).length (e1 focus) (e2 focus) :=
+  intersect_eq_spec i root h (e1 focus) (e2 focus) _ hx (List.Perm.refl _)
+
 end EPV.C02
